@@ -1463,3 +1463,53 @@ pub fn e4_single(ctx: &Ctx, name: &str, lens: &[u16], dists: &[u16], st: &mut Lo
     e.bound = format!("{} distances x lengths {:?} x {{fixed, dynamic}}: one reference per stream behind a 32 KiB stored prefix", dists.len(), lens);
     e.exhaustive = true;
 }
+
+/// E2s: multi-block streams in which later blocks reference bytes of earlier stored / huffman blocks
+pub fn e2_crossblock(ctx: &Ctx, name: &str, st: &mut Local, f: Sink) {
+    if !ctx.engine_on(name) {
+        return;
+    }
+    let text = text_family(1, 1400);
+    let noise = text_family(4, 600);
+    let r = |len: u16, dist: u16| Tok::Ref { len, dist, irr: false };
+    let mut cases: Vec<(String, Vec<Block>)> = Vec::new();
+    for (sname, stored) in [("text", text[..1000].to_vec()), ("noise", noise.clone())] {
+        let n = stored.len() as u16;
+        for kind in 0..2 {
+            // references into the stored bytes at several distances, then text that repeats stored content
+            let mut toks = vec![Tok::Lit(b'#'), r(20, n - 100 + 1), r(3, 500), Tok::Lit(b'!'), r(258, n + 24 - 40), r(7, 384), r(4, 385), Tok::Lit(b'.')];
+            let tail = lz_tokens(&text[200..700], &LzCfg { lazy: false, max_chain: 8, nice: 64, window: 4096 });
+            toks.extend(tail.into_iter().map(|t| match t {
+                Tok::Ref { len, dist, .. } => r(len, dist),
+                x => x,
+            }));
+            let blk = if kind == 0 { Block::Fixed { toks: toks.clone() } } else { Block::Dyn { hdr: default_header(&toks), toks: toks.clone() } };
+            cases.push((format!("stored({}) + {} block referencing it", sname, if kind == 0 { "fixed" } else { "dynamic" }), vec![Block::Stored { data: stored.clone(), pad: 0 }, blk.clone()]));
+            cases.push((
+                format!("fixed + stored({}) + {} block", sname, if kind == 0 { "fixed" } else { "dynamic" }),
+                vec![Block::Fixed { toks: vec![Tok::Lit(b'a'), Tok::Lit(b'b'), r(5, 2)] }, Block::Stored { data: stored.clone(), pad: 5 }, blk],
+            ));
+        }
+    }
+    let mut idx = 0u64;
+    for (d, blocks) in cases {
+        let i = idx;
+        idx += 1;
+        if ctx.sel.mine(i) {
+            let e = st.eng(name);
+            e.states += 1;
+            e.transitions += blocks.len() as u64;
+            e.nontrivial += 1;
+        }
+        if !ctx.take(name, i) {
+            continue;
+        }
+        let s = Stream { blocks, final_pad: 0 };
+        let bytes = serialise(&s);
+        let case = StreamCase { stream_len: bytes.len(), plain: Some(plaintext(&s)), bytes, descr: d };
+        deliver(ctx, name, st, i, case, f);
+    }
+    let e = st.eng(name);
+    e.bound = "8 multi-block streams: a stored block (text / noise) followed by a fixed or dynamic block whose references reach into the stored bytes, with and without a leading huffman block".into();
+    e.exhaustive = true;
+}
